@@ -134,6 +134,9 @@ _sc, _txt = _aux("AUX11", 13, "compactLogsWithTrailing (snapshot.go) against 'de
 PROFILES["C11"]["scenarios"] = PROFILES["C11"]["scenarios"] + [_sc]
 PROFILES["C11"]["rule"] = DEFAULT_RULE + _txt
 
+# C12: its own profile plus the membership-heavy one (servers removed, re-added, demoted while cut off)
+PROFILES["C12"]["scenarios"] = [s1(quick_runs=1800, quick_budget_s=40), s1("C07", quick_runs=700, quick_budget_s=20, thorough_budget_s=600)]
+
 # C17: the chaotic half (profile C17) and the calm half with brief link losses inside calls (profile C17b)
 PROFILES["C17"]["scenarios"] = [s1(quick_runs=1500, quick_budget_s=30), s1("C17b", quick_runs=1200, quick_budget_s=25, thorough_budget_s=600)]
 
